@@ -29,6 +29,7 @@ type scenario struct {
 	plans  []lc.Plan // plan of connection attempt i; beyond the slice: Normal
 	// expectations
 	wantDrops bool // the first generation is expected to be lost involuntarily
+	poke      bool // while the scripted failures last, call Open again and again (must be ErrAlreadyOpen, must not disturb the loop)
 	quiet     bool // send nothing until the scripted generations are gone (a link that shows life is never dropped by linktest)
 }
 
@@ -76,7 +77,17 @@ func runScenario(c *vh.Ctx, sc scenario) {
 	// drive: keep trying a round trip until one succeeds AFTER all scripted plans were consumed
 	deadline := time.Now().Add(8 * time.Second)
 	recovered := false
+	pokes := 0
 	for time.Now().Before(deadline) {
+		if sc.poke && r.Dials() <= len(sc.plans) && r.Dials() >= 2 {
+			// a reconnect loop is in flight (at least one re-dial has been refused): an "ensure open" call
+			if o := r.Open(pokes%2 == 0, 50*time.Millisecond); o.Class != "already" {
+				c.Fail("C11: Open on an open, reconnecting connection did not return ErrAlreadyOpen", desc()+": "+o.Class)
+			}
+			pokes++
+			time.Sleep(2 * time.Millisecond)
+			continue
+		}
 		if sc.quiet && r.Dials() <= len(sc.plans) {
 			time.Sleep(time.Millisecond)
 			continue
@@ -109,7 +120,9 @@ func runScenario(c *vh.Ctx, sc scenario) {
 		c.Fail("C11: round trip succeeded but State() is not Selected", desc())
 	}
 	// Reconnects() = successful re-establishments: every transport connection that came up after the
-	// first one did (active: successful dials; passive: successful listens) by a counting loop
+	// first one that came up (active: successful dials; passive: successful listens). When Open's own
+	// first dial fails under OpenBackground, the first success is made by the non-counting cold-start
+	// loop, so the formula is the same: successes - 1.
 	evs := r.Events()
 	ups, firstUp := int64(0), false
 	for _, e := range evs {
@@ -126,8 +139,34 @@ func runScenario(c *vh.Ctx, sc scenario) {
 		time.Sleep(time.Millisecond)
 		metric = r.Conn.Metrics().Reconnects()
 	}
-	if firstOK(evs) && int64(metric) != ups {
+	if int64(metric) != ups {
 		c.Fail("C11: Reconnects() differs from the number of successful re-dials", fmt.Sprintf("%s metric=%d redials=%d", desc(), metric, ups))
+	}
+	if sc.poke && pokes == 0 {
+		c.Fail("C11: harness: no Open call landed while the reconnect loop was in flight", desc())
+	}
+	if sc.poke {
+		c.Count(fmt.Sprintf("e2e/pokes-while-reconnecting>=%d", min(pokes, 3)))
+	}
+	// a peer that went silent mid-frame must be detected by T8: the next dial follows within T8 + backoff + slack
+	for _, e := range evs {
+		if e.K != "Z" {
+			continue
+		}
+		next := time.Time{}
+		for _, d := range evs {
+			if d.K == "D" && d.Seq > e.Seq {
+				next = d.T
+				break
+			}
+		}
+		if next.IsZero() {
+			c.Fail("C11: no re-dial after the peer went silent inside a frame (T8)", fmt.Sprintf("%s stalled_after_bytes=%d", desc(), e.N[0]))
+		} else if lim := sc.cfg.T8 + sc.cfg.BackoffInit + upSlack; next.Sub(e.T) > lim {
+			c.Fail("C11: re-dial after a mid-frame stall later than T8 + backoff + slack", fmt.Sprintf("%s stalled_after_bytes=%d gap_ms=%d", desc(), e.N[0], next.Sub(e.T).Milliseconds()))
+		} else if next.Sub(e.T) < sc.cfg.T8 {
+			c.Fail("C11: re-dial earlier than T8 after a mid-frame stall", fmt.Sprintf("%s stalled_after_bytes=%d gap_ns=%d", desc(), e.N[0], next.Sub(e.T)))
+		}
 	}
 	checkGaps(c, r, sc, evs)
 	close(stop)
@@ -144,22 +183,10 @@ func runScenario(c *vh.Ctx, sc scenario) {
 	}
 	r.Shutdown()
 	toks := lc.Tokens(r.Events())
-	if firstOK(evs) {
-		toks += fmt.Sprintf(" RC %d %d", metric, ups)
-	}
+	toks += fmt.Sprintf(" RC %d %d", metric, ups)
 	line := "E " + desc() + " | " + toks
 	c.Case(line, line, true)
 	c.Count("e2e/" + strings.SplitN(sc.tag, ":", 2)[0] + "/" + roleName(sc.active))
-}
-
-// firstOK: the very first transport attempt succeeded (so every later success is a counted re-dial).
-func firstOK(evs []lc.Ev) bool {
-	for _, e := range evs {
-		if e.K == "D" {
-			return e.Res == "ok" || e.Res == "listen" || e.Res == "hanglive"
-		}
-	}
-	return false
 }
 
 // checkGaps: dial timestamps against the backoff sleeps computed with the REAL nextBackoffDelay.
@@ -278,6 +305,39 @@ func e2ePass(c *vh.Ctx) {
 			}
 		}
 	}
+	// --- C2: the peer goes SILENT (no close) at every byte offset inside an inbound data frame; no
+	// linktest, so only T8 covers it ---
+	for _, active := range []bool{true, false} {
+		body := []byte{0x41, 0x03, 'a', 'b', 'c'} // <A "abc">
+		for off := 1; off < 14+len(body); off++ {
+			cfg := e2eCfg()
+			cfg.Linktest = 0
+			cfg.T8 = 25 * time.Millisecond
+			cfg.T3 = 60 * time.Millisecond
+			p := lc.Normal()
+			p.ReplyBody = body
+			p.StallIn = 14 + off // 14 = the select frame the peer wrote first (Select.rsp / Select.req)
+			runScenario(c, scenario{tag: fmt.Sprintf("t8stall:in@%d", off), active: active, cfg: cfg, plans: []lc.Plan{p}, wantDrops: true})
+		}
+	}
+	// --- C3: "ensure open" calls while a reconnect loop is in flight (after a drop with the peer
+	// unreachable, and on the cold-peer path): ErrAlreadyOpen, and the loop keeps going ---
+	for _, cold := range []bool{false, true} {
+		cfg := e2eCfg()
+		cfg.BackoffInit, cfg.BackoffMult, cfg.T5 = 5*time.Millisecond, 1, 5*time.Millisecond
+		var plans []lc.Plan
+		if !cold {
+			plans = append(plans, mk(func(p *lc.Plan) { p.DropAfter = 3 * time.Millisecond }))
+		}
+		for i := 0; i < 12; i++ {
+			plans = append(plans, lc.Refused())
+		}
+		tag := "poke:after-drop"
+		if cold {
+			tag = "poke:cold-peer"
+		}
+		runScenario(c, scenario{tag: tag, active: true, cfg: cfg, plans: plans, wantDrops: true, poke: true, quiet: true})
+	}
 	// --- D: runs of k failed dials under several backoff configurations (active) ---
 	type bo struct {
 		init, t5 time.Duration
@@ -298,9 +358,9 @@ func e2ePass(c *vh.Ctx) {
 			cfg.BackoffInit, cfg.T5, cfg.BackoffMult = b.init, b.t5, b.mult
 			plans := []lc.Plan{mk(func(p *lc.Plan) { p.DropAfter = 3 * time.Millisecond })}
 			for i := 0; i < k; i++ {
-				f := lc.Plan{CutOut: -1, CutIn: -1, DialErr: true}
+				f := lc.Refused()
 				if c.Rng.Intn(6) == 0 {
-					f = lc.Plan{CutOut: -1, CutIn: -1, DialHang: true}
+					f = lc.Hang()
 					cfg.ConnectTimeout = 10 * time.Millisecond
 				}
 				plans = append(plans, f)
@@ -313,7 +373,7 @@ func e2ePass(c *vh.Ctx) {
 		cfg := e2eCfg()
 		var plans []lc.Plan
 		for i := 0; i < k; i++ {
-			plans = append(plans, lc.Plan{CutOut: -1, CutIn: -1, DialErr: true})
+			plans = append(plans, lc.Refused())
 		}
 		runScenario(c, scenario{tag: fmt.Sprintf("cold:k=%d", k), active: true, cfg: cfg, plans: plans, wantDrops: true})
 	}
